@@ -945,7 +945,13 @@ class Bench:
                     self.V('C11', 'fill_target', key, f"{post_real.name}: total is {float(tot):.12g} {unit}, target {float(value):.12g} {unit}",
                            kid if 'C11' in excuse else None)
                 if cell is not None:
-                    ref = self.call(lambda: __import__('copy').deepcopy(t.base.wells[cell]).fill_to(W.rsubs[solvent], q))
+                    def ref_fill():
+                        # a well named twice in a list is filled twice (the second time tops up rounding residue at most)
+                        w = __import__('copy').deepcopy(t.base.wells[cell])
+                        for _ in range(cells.count(cell)):
+                            w = w.fill_to(W.rsubs[solvent], q)
+                        return w
+                    ref = self.call(ref_fill)
                     if ref[0] == 'ok':
                         self.diff_container(post_real, ref[1], key, 'result', kid if 'C07' in excuse else None)
             if t.kind == 'plate':
